@@ -607,4 +607,109 @@ theorem processAll_builtX_clean (reg : Registry) (opts : Opts) (plug : Plug)
   have := Tree.forestAll_tree? _ id t hne ht
   exact Tree.noErrors_own t this
 
+/-! ### what a deviate statement does to the config of its target -/
+
+section Cfg
+open Goyang.Lemmas.Deviate
+
+/-- The explicit config of a node. -/
+def cfg (n : Entry) : Tri := n.d.config
+
+theorem cfg_stMand (sd : EData) (n : Entry) : cfg (stMand sd n) = cfg n := by
+  cases n; unfold stMand; split <;> rfl
+theorem cfg_stUnits (sd : EData) (n : Entry) : cfg (stUnits sd n) = cfg n := by
+  cases n; unfold stUnits; split <;> rfl
+theorem cfg_stType (sd : EData) (n : Entry) : cfg (stType sd n) = cfg n := by
+  cases n; unfold stType; split <;> rfl
+theorem cfg_stMandDel (sd : EData) (n : Entry) : cfg (stMandDel sd n) = cfg n := by
+  cases n; unfold stMandDel; split <;> rfl
+theorem cfg_stDefAR (ms : Stmt) (a : Bool) (sd : EData) (n : Entry) : cfg (stDefAR ms a sd n).1 = cfg n := by
+  cases n; unfold stDefAR; repeat' split
+  all_goals rfl
+theorem cfg_stDefDel (ms : Stmt) (sd : EData) (n : Entry) : cfg (stDefDel ms sd n).1 = cfg n := by
+  cases n; unfold stDefDel; repeat' split
+  all_goals rfl
+theorem cfg_setMin (n : Entry) (v : Nat) : cfg (setMin n v) = cfg n := by cases n; rfl
+theorem cfg_setMax (n : Entry) (v : Nat) : cfg (setMax n v) = cfg n := by cases n; rfl
+
+theorem cfg_stCfg (sd : EData) (n : Entry) : cfg (stCfg sd n) = if sd.config != .unset then sd.config else cfg n := by
+  cases n; unfold stCfg; split <;> rfl
+theorem cfg_stCfgDel (sd : EData) (n : Entry) : cfg (stCfgDel sd n) = if sd.config != .unset then .unset else cfg n := by
+  cases n; unfold stCfgDel; split <;> rfl
+
+/-- **The config a deviate statement leaves on its target**: `add` / `replace` with a config
+substatement write it; `delete` with one erases the node's config statement; everything else — and a
+statement that reports an error — leaves the config alone. -/
+theorem applyOneDeviate_config (opts : Opts) (ms : Stmt) (kind : String) (spec : Entry) (hp : Bool) (node : Entry) :
+    (applyOneDeviate opts ms kind spec hp node).1.d.config =
+      match kindOf kind with
+      | .add | .replace => if spec.d.config != .unset then spec.d.config else node.d.config
+      | .delete => if spec.d.config != .unset then .unset else node.d.config
+      | _ => node.d.config := by
+  rw [applyOneDeviate_eq_staged]
+  show cfg (staged opts ms kind spec hp node).1 = _
+  unfold staged
+  cases kindOf kind with
+  | add =>
+    simp only [addReplace]
+    generalize hR : (if spec.d.config != .unset then spec.d.config else node.d.config) = R
+    repeat' split
+    all_goals simp only [cfg_stMand, cfg_stUnits, cfg_stType, cfg_stDefAR, cfg_setMin, cfg_setMax, cfg_stCfg]
+    all_goals exact hR
+  | replace =>
+    simp only [addReplace]
+    generalize hR : (if spec.d.config != .unset then spec.d.config else node.d.config) = R
+    repeat' split
+    all_goals simp only [cfg_stMand, cfg_stUnits, cfg_stType, cfg_stDefAR, cfg_setMin, cfg_setMax, cfg_stCfg]
+    all_goals exact hR
+  | delete =>
+    have h3 : cfg (delN3 ms spec node) = if spec.d.config != .unset then .unset else cfg node := by
+      simp only [delN3, cfg_stMandDel, cfg_stDefDel, cfg_stCfgDel]
+    rw [delete_eq]
+    simp only []
+    generalize hR : (if spec.d.config != .unset then Tri.unset else node.d.config) = R
+    rw [show cfg node = node.d.config from rfl, hR] at h3
+    repeat' split
+    all_goals simp only [h3, cfg_setMin, cfg_setMax]
+  | notSupported => simp only [notSupported]; split <;> rfl
+  | other => rfl
+
+end Cfg
+
+/-! ### read-only at a node whose config a deviation wrote -/
+
+theorem configsAlong_last : ∀ (p : Path) (root e : Entry), root.getAt p = some e →
+    ∃ init, configsAlong root p = init ++ [ck e] := by
+  intro p
+  induction p with
+  | nil =>
+    intro root e h
+    simp only [Entry.getAt, Option.some.injEq] at h; subst h
+    exact ⟨[], rfl⟩
+  | cons s p ih =>
+    intro root e h
+    rw [getAt_cons] at h
+    cases hn : next root s with
+    | none => simp [hn] at h
+    | some c =>
+      simp only [hn, Option.bind_some] at h
+      obtain ⟨init, hi⟩ := ih c e h
+      refine ⟨ck root :: init, ?_⟩
+      rw [configsAlong]
+      simp only [hn, hi, List.cons_append]
+
+/-- `ReadOnly()` of a node that carries an explicit config (and is no rpc output) is that config. -/
+theorem readOnlyAt_explicit (root : Entry) (p : Path) (e : Entry) (hg : root.getAt p = some e)
+    (hc : e.d.config ≠ .unset) (hk : e.d.kind ≠ .output) : root.readOnlyAt p = (e.d.config == .false_) := by
+  rw [readOnlyAt_exact]
+  obtain ⟨init, hi⟩ := configsAlong_last p root e hg
+  rw [hi]
+  unfold readOnlyExact
+  have hd : decisive (ck e) = true := by
+    simp only [decisive, ck, Bool.or_eq_true, bne_iff_ne, ne_eq]
+    exact Or.inr hc
+  simp only [List.reverse_append, List.reverse_cons, List.reverse_nil, List.nil_append, List.singleton_append,
+    List.find?_cons, hd, Option.map_some, Option.getD_some]
+  simp only [verdict, ck, kind_beq, hk, decide_false, Bool.false_or]
+
 end Goyang.Lemmas.ConfigNsDev
